@@ -166,6 +166,7 @@ def native_bounded(runner, name, clause, code, bound, func):
     enumerated domain, in a fresh CPython process.  `code` must print one JSON object {cases, failures:[{input, got, want}]}."""
     env = dict(os.environ)
     env['PYTHONPATH'] = os.path.join(runner.repo.root, 'src')
+    env['VERIF_TIER'] = runner.tier
     try:
         p = subprocess.run([NATIVE_PY, '-c', code], capture_output=True, text=True, timeout=1200, env=env)
         res = json.loads(p.stdout.strip().splitlines()[-1])
